@@ -3,7 +3,7 @@ SPEC = dict(
     title='The fan receives the nearest value it supports',
     props_file='Props/C12.v', props_mod='Props.C12',
     props_extra=[('Props/C12Mono.v', 'Props.C12Mono'), ('Props/C12Default.v', 'Props.C12Default')],
-    proof_files=['Proofs/Closest.v', 'Proofs/ClosestMono.v', 'Proofs/DefaultMap.v', 'Proofs/LeafTie.v', 'Drv/Closest.v'],
+    proof_files=['Proofs/Closest.v', 'Proofs/ClosestMono.v', 'Proofs/DefaultMap.v', 'Proofs/DefaultMapCtl.v', 'Proofs/LeafTie.v', 'Drv/Closest.v'],
     tie_vo=['Proofs/LeafTie.vo'],
     drivers=[dict(name='closest', drv_mod='Drv.Closest', drv_file='Drv/Closest.v', shard=300)],
     rule='exhaustive: every map over every subset of a small key universe with outputs from a small alphabet '
@@ -18,11 +18,11 @@ SPEC = dict(
     level_text='Theorems C12_nearest/C12_exact/C12_supported/C12_written hold for every strictly sorted key list of any length and every '
                'integer request (induction on the binary-search interval, axiom-free); C12_selection_monotone / C12_supported_fixed_point / '
                'C12_written_monotone / C12_outputs_reachable (Props/C12Mono.v) add that the selection never inverts the order of two requests, that a supported '
-               'request is handed through unchanged, that with non-decreasing outputs the written value is monotone in the request, and that every output value of the map stays reachable through a supported input; C12_default_map_is_identity / C12_default_map_clamps '
+               'request is handed through unchanged, that with non-decreasing outputs the written value is monotone in the request, and that every output value of the map stays reachable through a supported input; C12_default_map_is_identity / C12_default_map_clamps / C12_default_map_steady '
                '(Props/C12Default.v) derive the default map InterpolateLinearlyInt({0:0,255:255},0,255) from the interpolation model (float64 ratio, '
                'float32 rounding, truncation: the identity, which fails at 31 keys without the float32 rounding) and show every request through it is written clamped to 0..255; the model is tied to the Go code by a '
                'reflexivity lemma on the regenerated getClosest and by a differential run of the real FindClosest / '
                'ExtractKeysWithDistinctValues / setPwm on exhaustive small and random full-size maps.',
-    level_note='trusted: Coq kernel; hand-written model of FindClosest/ExtractKeysWithDistinctValues/setPwm, agreement with the code observed on the generated cases; outputs != -1',
+    level_note='trusted: Coq kernel (vm_compute over primitive floats for the 256-key default map); the stdlib axiom FloatAxioms.Leibniz.eqb_spec under C12_default_map_steady only (through Proofs/Rescale.v), every other C12 theorem is closed under the global context; hand-written model of FindClosest/ExtractKeysWithDistinctValues/setPwm, agreement with the code observed on the generated cases; outputs != -1',
     design_ref='DESIGN.md section 5 C12',
 )
